@@ -545,8 +545,10 @@ func (generator *BuilderGenerator) FromAST(schemas Schemas) []Builder {
 
 	for _, schema := range schemas {
 		schema.Objects.Iterate(func(_ string, object Object) {
+			// a reference that does not resolve (unknown package or object,
+			// cycle of references) is still a KindRef here: no builder for it.
 			resolvedType := schemas.ResolveToType(object.Type)
-			if !resolvedType.IsAnyOf(KindStruct, KindRef) {
+			if !resolvedType.IsStruct() {
 				return
 			}
 
